@@ -19,6 +19,7 @@ import binascii
 import itertools
 import lzma
 import os
+import re
 import shutil
 import struct
 import tempfile
@@ -218,7 +219,8 @@ def cfg_tokens(cfg, b64: bool) -> str:
 
 def cfg_key(cfg) -> str:
     return (f"{cfg['fmt']}/{cfg['comp'] or 'none'}/B{cfg['B'] if cfg['comp'] else 0}/h{cfg['hs']}/{cfg['bo']}/"
-            f"{'joint' if cfg['joint'] else 'sep'}" + ("/mixed" if cfg.get("fmts") else ""))
+            f"{'joint' if cfg['joint'] else 'sep'}" + ("/mixed" if cfg.get("fmts") else "") +
+            (f"/hdr{HDR_STYLES.index(cfg['hdr'])}" if cfg.get("hdr") in HDR_STYLES[1:] else ""))
 
 
 def storage_of(cfg, i: int) -> str:
@@ -396,11 +398,26 @@ def wrap_file(ds, cfg, arrs, xmls, counts=None) -> bytes:
     return f'<?xml version="1.0"?>\n<VTKFile type="{gtype}" {root_attrs}>\n{body}\n'.encode("ascii")
 
 
+HDR_DEFAULT = [" ", "=", "", "\n"]           # a1, a2, a3, ws of Spec.RawFile
+HDR_STYLES = [HDR_DEFAULT, ["\n  ", " = ", " ", "\n   "], [" ", "=", " " * 40, "\n"], ["  ", "= ", " " * 60, "\n "],
+              [' info="x"  ', "=", ' more="y"', "\n  "], [" ", "=", "", "\n\t"]]
+# style 5 (a TAB between `>` and `_`) is legal for VTK but only generated for raw appendices: for XML-parsable
+# (base64) files `elem.text.strip("_ \n")` leaves the tab in front of the data and every offset > 0 is shifted
+# (observation C05-APPWS in NOTES_C05.md, not registered).  FCV_C05_APPWS=1 generates it for base64 too.
+APPWS_OPT_IN = os.environ.get("FCV_C05_APPWS") == "1"
+
+
+def hdr_styles_for(fmt: str):
+    return HDR_STYLES[1:] if (fmt == "appraw" or APPWS_OPT_IN) else HDR_STYLES[1:5]
+
+
 def finish_file(head: bytes, cfg, appendix: bytes | None) -> bytes:
     if appendix is None:
         return head + b"</VTKFile>\n"
     encn = "base64" if appended_is_b64(cfg) else "raw"
-    return head + f'<AppendedData encoding="{encn}">\n_'.encode() + appendix + b"\n</AppendedData>\n</VTKFile>\n"
+    a1, a2, a3, ws = cfg.get("hdr") or HDR_DEFAULT
+    return (head + f'<AppendedData{a1}encoding{a2}"{encn}"{a3}>{ws}_'.encode() + appendix +
+            b"\n</AppendedData>\n</VTKFile>\n")
 
 
 # ------------------------------------------------------------------ observables
@@ -646,7 +663,7 @@ class Batch:
             info["path"] = path
             info["appendix"] = bytes(appendix)
             if cfg["fmt"] == "appraw" and info["groups"]["appended"] and len(self.raw_files) < self.raw_cap:
-                self.raw_files.append((cfg_key(cfg), content, bytes(appendix)))
+                self.raw_files.append((cfg_key(cfg), content, bytes(appendix), cfg.get("hdr") or HDR_DEFAULT))
             # model reader lines
             for st in ("inline", "appended"):
                 g = info["groups"][st]
@@ -741,12 +758,13 @@ class Batch:
             impl.pop("points64", None)
         d = diff_obs(impl, expected)
         nontrivial = ds["npts"] > 0 or bool(arrs and len(arrs[0]["le"]) > 0)
-        ctx.case(key, nontrivial=nontrivial, tags=["file-" + ds["kind"], "cfg-" + cfg_key(cfg).replace("/mixed", "")] + tags,
+        ctx.case(key, nontrivial=nontrivial, tags=["file-" + ds["kind"], "cfg-" + re.sub(r"/(mixed|hdr\d)", "", cfg_key(cfg))] +
+                 (["appended-header-style-%d" % HDR_STYLES.index(cfg["hdr"])] if cfg.get("hdr") in HDR_STYLES else []) + tags,
                  sample={"cfg": cfg, "kind": ds["kind"], "npts": ds["npts"], "ncells": ncells_of(ds),
                          "arrays": len(arrs), "impl_error": impl.get("error"), "diff": d,
                          "model_ok": model_ok})
         if d:
-            cls = raw_tag_class(cfg, info)
+            cls = raw_tag_class(cfg, info) or appws_class(cfg, info)
             ctx.violation(case, brief(impl, d), brief(expected, d), cls=cls,
                           what=f"read_field_data differs from the logical content of the file in {d[:6]} (cfg {cfg_key(cfg)})"
                                + (f" [class {cls}: raw appendix contains the bytes </AppendedData> or <AppendedData]" if cls else ""))
@@ -758,6 +776,14 @@ class Batch:
 # ------------------------------------------------------------------ finding classes
 
 RAW_TAG_NEEDLES = (b"</AppendedData>", b"<AppendedData")
+
+
+def appws_class(cfg, info):
+    """class predicate of observation C05-APPWS: XML-parsable file (base64 appendix) with a character other than
+    blank / line break between `>` and `_`"""
+    if cfg["fmt"] == "app64" and info["groups"]["appended"] and cfg.get("hdr") and cfg["hdr"][3].strip(" \n"):
+        return "C05-APPWS"
+    return None
 
 
 def raw_tag_class(cfg, info):
@@ -826,6 +852,8 @@ def random_cfg(rng, narr: int, lengths):
     B = max(1, rng.choice([L - 1, L, L + 1, L // 2, (L - 1) // 2, rng.randint(1, 64), rng.randint(1, 9)]))
     cfg = {"fmt": fmt, "comp": comp, "B": B if comp else 0, "hs": rng.choice([4, 8]), "bo": rng.choice(["le", "be"]),
            "joint": rng.random() < 0.5 if (fmt in ("inline", "app64") and not comp) else True}
+    if fmt in ("app64", "appraw") and rng.random() < 0.6:
+        cfg["hdr"] = rng.choice(hdr_styles_for(fmt))
     if rng.random() < 0.25 and fmt != "ascii":
         app = "appended"
         cfg["fmts"] = [rng.choice(["ascii", "inline", app]) for _ in range(narr)]
@@ -1132,8 +1160,46 @@ def check_shipped(ctx):
 
 # ------------------------------------------------------------------ fallback parser: implementation vs model
 
-def impl_fallback(content: bytes):
+_PROBE = {}
+
+
+def _probe_class():
+    """a minimal concrete VTKXMLReader: only its constructor (XML parse, fallback branch) is used"""
+    if "cls" not in _PROBE:
+        from fieldcompare.io.vtk._xml_reader import VTKXMLReader
+
+        class Probe(VTKXMLReader):
+            def _make_mesh(self):
+                raise NotImplementedError
+
+            def _get_field_data_path(self):
+                return "UnstructuredGrid/Piece"
+        _PROBE["cls"] = Probe
+    return _PROBE["cls"]
+
+
+def impl_fallback(content: bytes, tmpdir=None):
+    """what the fallback branch of VTKXMLReader.__init__ extracts.  Preferably observed on the real constructor
+    (file that ElementTree rejects and whose head is XML); otherwise the two helper functions are called the way
+    the constructor calls them."""
     from fieldcompare.io.vtk._xml_reader import _find_appendix_positions, _determine_encoding
+    if tmpdir is not None:
+        try:
+            ElementTree.fromstring(content)
+            rejected = False
+        except ElementTree.ParseError:
+            rejected = True
+        if rejected:
+            path = os.path.join(tmpdir, "probe.vtu")
+            with open(path, "wb") as fh:
+                fh.write(content)
+            try:
+                rd = _probe_class()(path)
+                app = rd._appendix
+                impl_fallback.via_constructor += 1
+                return hx(app._content), hx(str(app._encoding).encode("ascii", "replace"))
+            except Exception:  # noqa: BLE001  head is not XML / the helpers raise: observe the helpers directly
+                pass
     try:
         b, e = _find_appendix_positions(content)
         return hx(content[b:e]), hx(_determine_encoding(content[b - 100:]).encode("ascii", "replace"))
@@ -1141,11 +1207,14 @@ def impl_fallback(content: bytes):
         return "E", "-"
 
 
-def check_fallback(ctx, files):
+impl_fallback.via_constructor = 0
+
+
+def check_fallback(ctx, files, tmpdir=None):
     """files = [(tag, content, appendix written by the harness | None)]"""
     reps = ctx.lean([f"c05fallback {hx(c)}" for _, c, _ in files])
     for (tag, content, app), r in zip(files, reps):
-        impl = impl_fallback(content)
+        impl = impl_fallback(content, tmpdir)
         model = (r.get("model", "?"), r.get("enc", "?"))
         # the slice includes the line break the harness puts in front of the closing tag
         intact = impl[1] == hx(b"raw") and (app is None or impl[0] == hx(app + b"\n"))
@@ -1156,7 +1225,6 @@ def check_fallback(ctx, files):
                          what="_find_appendix_positions/_determine_encoding vs Fc.fallbackAppendix")
 
 
-RAW_MID = b'<AppendedData encoding="raw">\n_'
 RAW_TAIL = b"\n</AppendedData>\n</VTKFile>\n"
 
 
@@ -1170,10 +1238,12 @@ def rawfile_content(parts) -> bytes:
             parts["a3"] + b">" + parts["ws"] + b"_" + parts["appendix"] + b"</AppendedData>" + parts["post"])
 
 
-def decompose_generated(content: bytes, appendix: bytes):
+def decompose_generated(content: bytes, appendix: bytes, hdr):
     """the pieces of a raw-appended file written by `finish_file` (Spec.RawFile)"""
-    n = len(content) - len(RAW_MID) - len(appendix) - len(RAW_TAIL)
-    parts = {"pre": content[:n], "a1": b" ", "a2": b"=", "enc": b"raw", "a3": b"", "ws": b"\n",
+    a1, a2, a3, ws = (x.encode() for x in hdr)
+    mid = b"<AppendedData" + a1 + b"encoding" + a2 + b'"raw"' + a3 + b">" + ws + b"_"
+    n = len(content) - len(mid) - len(appendix) - len(RAW_TAIL)
+    parts = {"pre": content[:n], "a1": a1, "a2": a2, "enc": b"raw", "a3": a3, "ws": ws,
              "appendix": appendix + b"\n", "post": b"\n</VTKFile>\n"}
     return parts if n >= 0 and rawfile_content(parts) == content else None
 
@@ -1184,8 +1254,14 @@ def synthetic_rawfiles(rng, count: int):
     filler = b'<?xml version="1.0"?>\n<VTKFile type="UnstructuredGrid" version="1.0" byte_order="LittleEndian">\n' \
              b'<UnstructuredGrid><Piece NumberOfPoints="4" NumberOfCells="1">\n<PointData>\n' \
              b'<DataArray type="Float64" Name="p_1" format="appended" offset="0"/>\n</PointData>\n</Piece></UnstructuredGrid>\n'
+    xml_head = b'<?xml version="1.0"?>\n<VTKFile type="UnstructuredGrid">\n'
     for _ in range(count):
-        pre = filler[:rng.choice([0, 30, 60, 68, 69, 70, 99, 100, 101, len(filler)])]
+        if rng.random() < 0.5:
+            # a well-formed head (so that the real constructor gets through), total length around the 100-byte mark
+            pad = rng.choice([0, 1, 5, 10, 11, 12, 13, 14, 30, 40, 41, 42, 43, 44, 80, 200])
+            pre = xml_head + b"<!--" + b"x" * pad + b"-->\n<UnstructuredGrid></UnstructuredGrid>\n"
+        else:
+            pre = filler[:rng.choice([0, 30, 60, 68, 69, 70, 99, 100, 101, len(filler)])]
         if rng.random() < 0.1:
             pre += rng.choice([b"<!-- <AppendedData -->", b"<!-- </AppendedData> -->", b"<AppendedDat", b"</AppendedData"])
         parts = {"pre": pre,
@@ -1207,7 +1283,7 @@ def synthetic_rawfiles(rng, count: int):
     return out
 
 
-def check_rawfiles(ctx, items):
+def check_rawfiles(ctx, items, tmpdir=None):
     """items = [(tag, parts)]: the file-level theorem C05_fallback_appendix at run time.
     Inside HeadOk ∧ AppendixOk: model = spec (theorem; `inconsistent` otherwise) and implementation = spec;
     everywhere: implementation = model (correspondence)."""
@@ -1220,7 +1296,7 @@ def check_rawfiles(ctx, items):
         hyp = r.get("head") == "1" and r.get("app") == "1"
         model = (r.get("model", "?"), r.get("enc", "?"))
         spec = (r.get("spec", "?"), r.get("specenc", "?"))
-        impl = impl_fallback(content)
+        impl = impl_fallback(content, tmpdir)
         has_needle = any(n in parts["appendix"] for n in RAW_TAG_NEEDLES)
         ctx.case(("rawfile", content), nontrivial=True,
                  tags=["rawfile-" + tag.split(":")[0], "rawfile-hyp-" + ("in" if hyp else "out"),
@@ -1358,6 +1434,10 @@ def run(ctx):
         lengths = array_lengths(dsp)
         mp = matrix(block_sizes_for(lengths))
         sample = [c for c in mp if not c["comp"]] + rng.sample([c for c in mp if c["comp"]], ctx.scale(40, 180))
+        # other legal spellings of the <AppendedData …> tag (blanks, further attributes, up to 96 bytes long)
+        sample += [dict(c, hdr=h) for c in mp
+                   if c["fmt"] in ("appraw", "app64") and not c["comp"] and c["hs"] == 4 and c["bo"] == "le" and c["joint"]
+                   for h in hdr_styles_for(c["fmt"])]
         for i in range(0, len(sample), 40):
             batch.run([(dsp, c) for c in sample[i:i + 40]],
                       tags_of=lambda d, c, L=lengths: ["matrix-vtp"] + boundary_tags(L, c))
@@ -1384,24 +1464,26 @@ def run(ctx):
         adv = adversarial_cases(rng)
         batch.run([(ds, cfg) for ds, cfg, _ in adv], tags_of=lambda d, c: ["adversarial-raw"])
         # ---- the raw-appended fallback parser on the files generated above and on the shipped raw files
-        files = list(batch.raw_files)
+        files = [(t_, c_, a_) for t_, c_, a_, _ in batch.raw_files]
         d = os.path.join(core.REPO, "test", "vtkfiles")
         if os.path.isdir(d):
             for name in sorted(os.listdir(d)):
                 if "raw" in name and os.path.splitext(name)[1] in (".vtu", ".vtp", ".vts"):
                     files.append(("shipped:" + name, open(os.path.join(d, name), "rb").read(), None))
-        check_fallback(ctx, files)
+        check_fallback(ctx, files, tmp)
         # ---- file-level theorem C05_fallback_appendix: generated raw files decomposed into Spec.RawFile pieces,
         #      plus synthetic decompositions in other header styles / with hostile bytes
         items = []
-        for tag, content, app in batch.raw_files:
-            parts = decompose_generated(content, app)
+        for tag, content, app, hdr in batch.raw_files:
+            parts = decompose_generated(content, app, hdr)
             if parts is None:
                 ctx.inconsistent({"op": "rawfile-decompose", "file": tag}, "finish_file layout", "Spec.RawFile.content")
             else:
                 items.append(("generated:" + tag, parts))
         items += [("synthetic:%d" % i, p_) for i, p_ in enumerate(synthetic_rawfiles(rng, ctx.scale(300, 6000)))]
-        check_rawfiles(ctx, items)
+        check_rawfiles(ctx, items, tmp)
+        ctx.notes.append(f"fallback parser observed on the real VTKXMLReader constructor for "
+                         f"{impl_fallback.via_constructor} file contents (helpers called directly for the rest)")
         check_numpy_text_parser(ctx)
         # ---- shipped files
         check_shipped(ctx)
